@@ -27,6 +27,13 @@ Theorem C15_file_roundtrip : forall evs envs f,
 Proof. exact events_ok. Qed.
 Print Assumptions C15_file_roundtrip.
 
+(* with the fuel the correspondence check uses (twice the number of tokens plus two) *)
+Theorem C15_file_roundtrip_fuel_adequate : forall evs envs,
+  Forall wf_event evs -> env_run evs envs <> None ->
+  p_events (2 * length (flat_map fmt_event evs) + 2) (flat_map fmt_event evs) envs = Some evs.
+Proof. exact events_ok_tokens. Qed.
+Print Assumptions C15_file_roundtrip_fuel_adequate.
+
 (* letter sets / wild cards: the characters survive escaping *)
 Theorem C15_letter_set_roundtrip : forall l v cs, v <> 10%N -> cs <> [] -> plain_chars cs ->
   parse_morph (fmt_morph l v cs) = Some (l, v, cs).
